@@ -266,7 +266,7 @@ func judge(c *Case) (*evid.Failure, stats) {
 		return f, st
 	}
 	s := goja.VerifVMState(vm)
-	if s.SP != 0 || s.CallStack != 0 || s.TryStack != 0 || s.IterStack != 0 || s.RefStack != 0 || !s.StashGlobal || !s.PrivEnvNil || s.JobQueue != 0 {
+	if s.SP != 0 || s.CallStack != 0 || s.TryStack != 0 || s.IterStack != 0 || s.RefStack != 0 || !s.StashGlobal || !s.PrivEnvNil || s.JobQueue != 0 || s.NativeDepth != 0 {
 		return fail(c, fmt.Sprintf("vmstate:sp=%d,cs=%d,try=%d,iter=%d,ref=%d,stash=%v,priv=%v,jobs=%d", s.SP, s.CallStack, s.TryStack, s.IterStack, s.RefStack, s.StashGlobal, s.PrivEnvNil, s.JobQueue),
 			fmt.Sprintf("after the top-level run (outcome %s) the VM is not idle: %+v", o.Kind, s)), st
 	}
